@@ -275,6 +275,8 @@ def audit(mods=None, shim_ids=None):
                         for a in node.names:
                             if node.module == "datetime" and a.name in _PURE_DATETIME:
                                 continue
+                            if node.module == "threading" and a.name == "local":
+                                continue        # per-thread storage: managed threads are real threads, nothing to schedule
                             names.append((a.asname or a.name, node.module + "." + a.name))
                 for n, what in names:
                     if (rel, n) in _HARMLESS:
